@@ -6,7 +6,8 @@ use px::query::details::{
     cast_shapes_ball_ball, cast_shapes_halfspace_support_map, cast_shapes_support_map_halfspace, ray_toi_with_ball,
 };
 use px::query::{self, NonlinearRigidMotion, Ray, ShapeCastHit, ShapeCastOptions, ShapeCastStatus};
-use px::shape::{Ball, Capsule, Cuboid, HalfSpace, Segment, Shape, Triangle};
+use px::bounding_volume::BoundingVolume;
+use px::shape::{Ball, Capsule, Compound, Cuboid, HalfSpace, Polyline, Segment, Shape, SharedShape, Triangle};
 use px::na::Unit;
 
 type V = dx::Vector<f64>;
@@ -65,6 +66,14 @@ fn shape(a: &mut Args) -> Box<dyn Shape> {
         "t" => { let p = dx::p(a); let q = dx::p(a); let r = dx::p(a); Box::new(Triangle::new(p, q, r)) }
         "s" => { let p = dx::p(a); let q = dx::p(a); Box::new(Segment::new(p, q)) }
         "x" => { let k = a.u(); let pts: Vec<P> = (0..k).map(|_| dx::p(a)).collect(); convex(&pts) }
+        // composites: `hf …` height field (per-dimension encoding, see c06.rs), `cp k (iso shape)*k` compound,
+        // `tm nv pts nt (a b c)*nt` triangle mesh, `pl nv pts` polyline of consecutive segments
+        "hf" => heightfield(a),
+        "cp" => { let k = a.u(); let parts: Vec<(Iso, SharedShape)> = (0..k).map(|_| { let m = dx::iso(a); let g = shape(a); (m, SharedShape(std::sync::Arc::from(g))) }).collect();
+                  Box::new(Compound::new(parts)) }
+        "tm" => { let nv = a.u(); let pts: Vec<P> = (0..nv).map(|_| dx::p(a)).collect(); let nt = a.u();
+                  let idx: Vec<[u32; 3]> = (0..nt).map(|_| [a.u() as u32, a.u() as u32, a.u() as u32]).collect(); trimesh(pts, idx) }
+        "pl" => { let nv = a.u(); let pts: Vec<P> = (0..nv).map(|_| dx::p(a)).collect(); Box::new(Polyline::new(pts, None)) }
         t => panic!("bad shape tag {}", t),
     }
 }
@@ -73,6 +82,59 @@ fn moved(pos: &Iso, vel: &V, s: f64) -> Iso {
     let mut m = *pos;
     m.translation.vector += *vel * s;
     m
+}
+
+/// the parts of a (possibly composite) shape, each with its pose in the shape's local frame
+fn parts(g: &dyn Shape) -> Vec<(Iso, Box<dyn Shape>)> {
+    if let Some(c) = g.as_compound() { return c.shapes().iter().map(|(m, s)| (*m, s.clone_dyn())).collect(); }
+    if let Some(t) = g.as_trimesh() { return t.triangles().map(|t| (Iso::identity(), Box::new(t) as Box<dyn Shape>)).collect(); }
+    if let Some(p) = g.as_polyline() { return p.segments().map(|s| (Iso::identity(), Box::new(s) as Box<dyn Shape>)).collect(); }
+    if let Some(h) = g.as_heightfield() { return hf_parts(h); }
+    vec![(Iso::identity(), g.clone_dyn())]
+}
+fn is_composite(g: &dyn Shape) -> bool {
+    g.as_compound().is_some() || g.as_trimesh().is_some() || g.as_polyline().is_some() || g.as_heightfield().is_some()
+}
+/// distance = min over pairs of parts of the real primitive `query::distance` (NaN if a pair is unsupported)
+fn parts_distance(pos1: &Iso, p1: &[(Iso, Box<dyn Shape>)], pos2: &Iso, p2: &[(Iso, Box<dyn Shape>)]) -> f64 {
+    let mut best = f64::INFINITY;
+    for (m1, g1) in p1 { for (m2, g2) in p2 {
+        match query::distance(&(pos1 * m1), &**g1, &(pos2 * m2), &**g2) { Ok(d) => { if d < best { best = d; } } Err(_) => return f64::NAN }
+    } }
+    best
+}
+/// first time of impact = min over pairs of parts of the real linear cast (`None` if no pair hits)
+fn parts_cast(pos1: &Iso, vel1: &V, p1: &[(Iso, Box<dyn Shape>)], pos2: &Iso, vel2: &V, p2: &[(Iso, Box<dyn Shape>)], o: ShapeCastOptions) -> Result<Option<f64>, ()> {
+    let mut best: Option<f64> = None;
+    for (m1, g1) in p1 { for (m2, g2) in p2 {
+        match query::cast_shapes(&(pos1 * m1), vel1, &**g1, &(pos2 * m2), vel2, &**g2, o) {
+            Ok(Some(h)) => { if best.map_or(true, |b| h.time_of_impact < b) { best = Some(h.time_of_impact); } }
+            Ok(None) => {}
+            Err(_) => return Err(()),
+        }
+    } }
+    Ok(best)
+}
+
+/// the same reduction, but with each part cast exactly as the composite traversals do it: in the local frame of the
+/// composite (`pos12 = pos1⁻¹ pos2`, or its inverse when the composite is the second shape), the part's own pose removed
+/// with `inv_mul` / `inverse_transform_vector`.  Mathematically the same casts as `parts_cast`; numerically the ones the
+/// traversal has to reproduce bit for bit.
+fn parts_cast_local(pos1: &Iso, vel1: &V, g1: &dyn Shape, pos2: &Iso, vel2: &V, g2: &dyn Shape, o: ShapeCastOptions) -> Result<Option<f64>, ()> {
+    use px::query::{DefaultQueryDispatcher, QueryDispatcher};
+    let pos12 = pos1.inv_mul(pos2);
+    let vel12 = pos1.inverse_transform_vector(&(vel2 - vel1));
+    let (comp, other, p, v) = if is_composite(g1) { (g1, g2, pos12, vel12) } else { (g2, g1, pos12.inverse(), -pos12.inverse_transform_vector(&vel12)) };
+    if is_composite(other) { return Err(()); }
+    let mut best: Option<f64> = None;
+    for (m, part) in parts(comp) {
+        match DefaultQueryDispatcher.cast_shapes(&m.inv_mul(&p), &m.inverse_transform_vector(&v), &*part, other, o) {
+            Ok(Some(h)) => { if best.map_or(true, |b| h.time_of_impact < b) { best = Some(h.time_of_impact); } }
+            Ok(None) => {}
+            Err(_) => return Err(()),
+        }
+    }
+    Ok(best)
 }
 
 pub fn exec(func: &str, a: &mut Args) -> String {
@@ -121,9 +183,13 @@ pub fn exec(func: &str, a: &mut Args) -> String {
         "e2e" => {
             let pos1 = dx::iso(a); let vel1 = dx::v(a); let g1 = shape(a);
             let pos2 = dx::iso(a); let vel2 = dx::v(a); let g2 = shape(a); let o = opts(a);
+            let comp = is_composite(&*g1) || is_composite(&*g2);
+            let (p1, p2) = (parts(&*g1), parts(&*g2));
             let dist = |s: f64| -> String {
+                // simple pairs: the real `query::distance`; composites / height fields: its minimum over the parts
+                if comp { ff(parts_distance(&moved(&pos1, &vel1, s), &p1, &moved(&pos2, &vel2, s), &p2)) } else {
                 match query::distance(&moved(&pos1, &vel1, s), &*g1, &moved(&pos2, &vel2, s), &*g2) {
-                    Ok(d) => ff(d), Err(_) => "nan".into() }
+                    Ok(d) => ff(d), Err(_) => "nan".into() } }
             };
             let lin = query::cast_shapes(&pos1, &vel1, &*g1, &pos2, &vel2, &*g2, o);
             let mut s = String::new();
@@ -143,6 +209,25 @@ pub fn exec(func: &str, a: &mut Args) -> String {
             }
             // initial distance (for the status clause)
             s.push_str(&format!(" d0 {}", dist(0.0)));
+            // composites: the brute-force reduction over the parts (same options) for the "first impact" clause
+            if comp {
+                match parts_cast(&pos1, &vel1, &p1, &pos2, &vel2, &p2, o) {
+                    Ok(None) => s.push_str(" bf none"),
+                    Ok(Some(t)) => s.push_str(&format!(" bf some {}", ff(t))),
+                    Err(_) => s.push_str(" bf unsupported"),
+                }
+                match parts_cast_local(&pos1, &vel1, &*g1, &pos2, &vel2, &*g2, o) {
+                    Ok(None) => s.push_str(" bfl none"),
+                    Ok(Some(t)) => {
+                        s.push_str(&format!(" bfl some {}", ff(t)));
+                        // is that impact a genuine crossing (the shapes are clearly closer than the target right after
+                        // it) or a grazing tie?  distances shortly after it
+                        s.push_str(" bfd");
+                        for f in [1.0 / 256.0, 1.0 / 64.0, 1.0 / 16.0] { s.push(' '); s.push_str(&dist(t + f * t.max(1.0e-3))); }
+                    }
+                    Err(_) => s.push_str(" bfl unsupported"),
+                }
+            }
             s
         }
         // oracle-only: nonlinear cast with zero angular velocity against the linear cast (target_distance = 0)
@@ -161,16 +246,79 @@ pub fn exec(func: &str, a: &mut Args) -> String {
             std::thread::spawn(move || {
                 let m1 = NonlinearRigidMotion::new(pos1, P::origin(), vel1, zero_angvel());
                 let m2 = NonlinearRigidMotion::new(pos2, P::origin(), vel2, zero_angvel());
+                let comp = is_composite(&*g1c) || is_composite(&*g2c);
+                let (p1, p2) = (parts(&*g1c), parts(&*g2c));
                 let r = std::panic::catch_unwind(std::panic::AssertUnwindSafe(|| {
-                    match query::cast_shapes_nonlinear(&m1, &*g1c, &m2, &*g2c, 0.0, o.max_time_of_impact, o.stop_at_penetration) {
+                    let mut out = match query::cast_shapes_nonlinear(&m1, &*g1c, &m2, &*g2c, 0.0, o.max_time_of_impact, o.stop_at_penetration) {
                         Err(_) => "unsupported".to_string(),
                         Ok(None) => "none".to_string(),
                         Ok(Some(h)) => {
-                            let d = match query::distance(&moved(&pos1, &vel1, h.time_of_impact), &*g1c, &moved(&pos2, &vel2, h.time_of_impact), &*g2c) {
-                                Ok(d) => ff(d), Err(_) => "nan".into() };
+                            let (q1, q2) = (moved(&pos1, &vel1, h.time_of_impact), moved(&pos2, &vel2, h.time_of_impact));
+                            let d = if comp { ff(parts_distance(&q1, &p1, &q2, &p2)) } else {
+                                match query::distance(&q1, &*g1c, &q2, &*g2c) { Ok(d) => ff(d), Err(_) => "nan".into() } };
                             format!("some {} {} {}", ff(h.time_of_impact), status_code(h.status), d)
                         }
+                    };
+                    // composites: the same nonlinear cast, part by part (zero angular velocity: a part moves like its
+                    // parent), reduced by the minimum — what the composite traversal must reproduce
+                    if comp {
+                        let mut best: Option<f64> = None; let mut unsup = false;
+                        // the part motions are built as the traversal builds them (`motion.prepend(part_pose)`, the motion
+                        // itself for parts without a pose), and the composite's part comes first in the call, as it does there
+                        let id = Iso::identity();
+                        let comp_first = is_composite(&*g1c);
+                        for (a1, s1) in &p1 { for (a2, s2) in &p2 {
+                            let n1 = if *a1 == id { m1 } else { m1.prepend(*a1) };
+                            let n2 = if *a2 == id { m2 } else { m2.prepend(*a2) };
+                            let r = if comp_first { query::cast_shapes_nonlinear(&n1, &**s1, &n2, &**s2, 0.0, o.max_time_of_impact, o.stop_at_penetration) }
+                                    else { query::cast_shapes_nonlinear(&n2, &**s2, &n1, &**s1, 0.0, o.max_time_of_impact, o.stop_at_penetration) };
+                            match r {
+                                Ok(Some(h)) => { if best.map_or(true, |b| h.time_of_impact < b) { best = Some(h.time_of_impact); } }
+                                Ok(None) => {}
+                                Err(_) => unsup = true,
+                            }
+                        } }
+                        if unsup { out.push_str(" bfnl unsupported"); }
+                        else { match best { None => out.push_str(" bfnl none"), Some(t) => out.push_str(&format!(" bfnl some {}", ff(t))) } }
+                        // the traversal culls with a nonlinear ball/ball cast of bounding balls; replay that test, with the
+                        // balls placed where they belong, for the pair of parts that hits first: `cull none` means the
+                        // real ball/ball cast itself denies the impact (not a traversal error)
+                        if let Some(bt) = best {
+                            let comp1 = is_composite(&*g1c);
+                            let (cparts, cpos, cvel, opos, ovel, og) = if comp1 { (&p1, pos1, vel1, pos2, vel2, &g2c) } else { (&p2, pos2, vel2, pos1, vel1, &g1c) };
+                            let mc = NonlinearRigidMotion::new(cpos, P::origin(), cvel, zero_angvel());
+                            let mo = NonlinearRigidMotion::new(opos, P::origin(), ovel, zero_angvel());
+                            let so = og.compute_local_bounding_sphere();
+                            let mut cull = "skip".to_string();
+                            for (a, sh) in cparts.iter() {
+                                let na = if *a == id { mc } else { mc.prepend(*a) };
+                                let hit = query::cast_shapes_nonlinear(&na, &**sh, &mo, &**og, 0.0, o.max_time_of_impact, o.stop_at_penetration);
+                                if let Ok(Some(h)) = hit { if h.time_of_impact == bt {
+                                    // every BVH lane whose box contains this part's box (its leaf lane and the ancestors),
+                                    // ball radius = the full diagonal as `SimdAabb::radius` has it
+                                    let bb = sh.compute_aabb(a);
+                                    let cgs: &dyn Shape = if comp1 { &*g1c } else { &*g2c };
+                                    if let Some(cs) = cgs.as_composite_shape() {
+                                        let mut all = true; let mut any = false;
+                                        for node in cs.qbvh().raw_nodes() { for ii in 0..4 {
+                                            let nb = node.simd_aabb.extract(ii);
+                                            if !(nb.mins.iter().all(|x| x.is_finite()) && nb.maxs.iter().all(|x| x.is_finite())) { continue; }
+                                            if !(0..DIM).all(|k| nb.mins[k] <= bb.mins[k] + 1.0e-9 && nb.maxs[k] >= bb.maxs[k] - 1.0e-9) { continue; }
+                                            any = true;
+                                            let (c, rad) = (nb.center(), (nb.maxs - nb.mins).norm());
+                                            let r = query::cast_shapes_nonlinear(&mc.prepend_translation(c.coords), &Ball::new(rad), &mo.prepend_translation(so.center.coords), &Ball::new(so.radius()),
+                                                                                 0.0, o.max_time_of_impact, true);
+                                            if !matches!(r, Ok(Some(_))) { all = false; }
+                                        } }
+                                        cull = if !any { "skip".into() } else if all { "some".into() } else { "none".into() };
+                                    }
+                                    break;
+                                } }
+                            }
+                            out.push_str(&format!(" cull {}", cull));
+                        }
                     }
+                    out
                 })).unwrap_or_else(|_| "panic".to_string());
                 let _ = tx.send(r);
             });
